@@ -1,8 +1,18 @@
 import Abyss.Props.C01
+import Abyss.Props.C01Gen
 #print axioms Abyss.C01_history
 #print axioms Abyss.run_refines
 #print axioms Abyss.step_refines
 #print axioms Abyss.C01_spec_laws
+#print axioms Abyss.C01_generated_engine
+#print axioms Abyss.genRun_refines
+#print axioms Abyss.genStep_refines
+#print axioms Abyss.put_bytes
+#print axioms Abyss.del_bytes
+#print axioms Abyss.get_bytes
+#print axioms Abyss.includes_bytes
+#print axioms Abyss.len_bytes
+#print axioms Abyss.find_bytes
 #print axioms Abyss.Store.put_spec
 #print axioms Abyss.Store.del_spec
 #print axioms Abyss.Store.get_spec
